@@ -315,7 +315,7 @@ MANIFEST_TEXT["C16"] = {
     "note": "Model hand-written over container values; that updates never write into a published container is a regenerated fact (GV.Generated.Pool.inPlaceStores) used by C07. Trusted: Lean kernel, extractor, harness, comparator.",
     "technique": "Lean 4 refinement proof over operation histories + differential management sequences with per-instance executions"}
 MANIFEST_TEXT["C17"] = {
-    "text": "Proof: invariant of the free-list / in-flight / put-goroutine transition system for any number of clients, any min <= max, every interleaving: the tags on the two lists, in flight and on their way back are a permutation of 0..max-1; hence at most max in flight, no instance handed to two requests, all instances back when nothing is in flight, acquire enabled whenever a list is non-empty, some step enabled unless idle. Regenerated facts: every pool Execute* method releases in a deferred function installed right after prepare (so on return, error and panic alike); getGengine / putGengineLocked have the modelled shape. Differential runs measure peak concurrency with more clients than instances, failing requests, and capacity afterwards. Lock balance (GV.Props.Locks): the lock skeleton of every function that touches a mutex is regenerated; a proved-sound abstract interpreter shows that no way out of such a function - return at any depth, panic in a callee - leaves a mutex held. Lock order: ranked acquisition excludes wait cycles (theorem); the acquisition order of the current source, computed over the regenerated skeletons and call-graph summaries, is decided by the kernel to go up in the ranking (the analysis itself is argued sound, not proved).",
+    "text": "Proof: invariant of the free-list / in-flight / put-goroutine transition system for any number of clients, any min <= max, every interleaving: the tags on the two lists, in flight and on their way back are a permutation of 0..max-1; hence at most max in flight, no instance handed to two requests, all instances back when nothing is in flight, acquire enabled whenever a list is non-empty, some step enabled unless idle. Regenerated facts: every pool Execute* method releases in a deferred function installed right after prepare (so on return, error and panic alike); getGengine / putGengineLocked have the modelled shape. Differential runs measure peak concurrency with more clients than instances, failing requests, and capacity afterwards. Lock balance (GV.Props.Locks): the lock skeleton of every function that touches a mutex is regenerated; a proved-sound abstract interpreter shows that no way out of such a function - return at any depth, panic in a callee - leaves a mutex held. Lock order: ranked acquisition excludes wait cycles (theorem); the acquisition order of the current source, computed over the regenerated skeletons and call-graph summaries, is decided by the kernel to go up in the ranking; the analysis is proved sound within a function (every acquisition of every execution of a checked skeleton is a computed edge), its resolution of callees is a heuristic.",
     "note": "Liveness = enabledness + scheduler fairness (assumed). Trusted: Lean kernel, extractor, harness, comparator.",
     "technique": "Lean 4 invariant proof over an interleaving transition system + regenerated method-shape facts + differential concurrency runs"}
 MANIFEST_TEXT["C06"] = {
